@@ -27,25 +27,25 @@ PROPS = {
               "Gx.C04.monitor_slots", "Gx.C04.rhs_slots", "Gx.C04.formals_are_permutations", "Gx.checkMonitor_sound", "Gx.checkRhs_sound"] + COMMON,
              ["Gx.Pins.orders_are_permutations", "Gx.Pins.argument_maps", "Gx.Pins.removal_flags"],
              ns.c04_run, ns.c04_case),
-    "C05": P("GotranxProofs.Properties.C05 GotranxProofs.GenValid",
-             ["Gx.GenValid.genEuler_valid", "Gx.C05.euler_eq_states_plus_dt_rhs", "Gx.C05.eval_eulerStore", "Gx.C05.eval_euler_printed", "Gx.C05.euler_dt_zero",
+    "C05": P("GotranxProofs.Properties.C05 GotranxProofs.GenValid GotranxProofs.SchemeEndToEnd",
+             ["Gx.SchemeEndToEnd.genEuler_correct", "Gx.GenValid.genEuler_valid", "Gx.C05.euler_eq_states_plus_dt_rhs", "Gx.C05.eval_eulerStore", "Gx.C05.eval_euler_printed", "Gx.C05.euler_dt_zero",
               "Gx.C05.inputs_untouched", "Gx.C05.euler_aliases", "Gx.checkScheme_sound", "Gx.checkRhs_sound_named"] + COMMON,
              ["Gx.Pins.scheme_aliases", "Gx.Pins.scheme_members_accepted"],
              ns.c05_run, ns.c05_case),
-    "C06": P("GotranxProofs.Properties.C06 GotranxProofs.GenValidRL",
-             ["Gx.GenValidRL.genGRL_valid", "Gx.GenValidRL.rl_generators_valid", "Gx.DiffFv.sub_diff", "Gx.GenValidRL.checkNoHelperClash_sound", "Gx.C06.eval_rl_store", "Gx.C06.rl_fallback", "Gx.C06.rl_exponential", "Gx.C06.rlStore_guarded", "Gx.C06.rlStore_zero",
+    "C06": P("GotranxProofs.Properties.C06 GotranxProofs.GenValidRL GotranxProofs.SchemeEndToEnd",
+             ["Gx.SchemeEndToEnd.genGRL_correct", "Gx.SchemeEndToEnd.genGRL_formula", "Gx.SchemeEndToEnd.solution_withLin", "Gx.GenValidRL.genGRL_valid", "Gx.GenValidRL.rl_generators_valid", "Gx.DiffFv.sub_diff", "Gx.GenValidRL.checkNoHelperClash_sound", "Gx.C06.eval_rl_store", "Gx.C06.rl_fallback", "Gx.C06.rl_exponential", "Gx.C06.rlStore_guarded", "Gx.C06.rlStore_zero",
               "Gx.C06.diff_var_other", "Gx.C06.diff_var_self", "Gx.C06.grl_aliases_and_delta", "Gx.checkScheme_sound",
               "Gx.C06.linearisation_is_derivative", "Gx.C06.zero_linearisation_gives_euler", "Gx.C06.exact_for_affine", "Gx.C06.converges_to_euler",
               "Gx.C06.no_division_by_zero", "Gx.diff_correct", "Gx.diff_zero_of_not_mentions", "Gx.rl_exact_affine", "Gx.affine_flow_solves", "Gx.rl_first_order"] + COMMON,
              ["Gx.Pins.scheme_aliases", "Gx.Pins.default_delta", "Gx.Pins.rl_always_guarded"],
              ns.make_run(ns.c06_case, 45, 1500, ns.scheme_cfg, extra=ns.c06_family), ns.c06_case),
-    "C07": P("GotranxProofs.Properties.C07 GotranxProofs.GenValidRL",
-             ["Gx.GenValidRL.genHybrid_valid", "Gx.GenValidRL.rl_generators_valid", "Gx.C07.hybrid_empty_eq_euler", "Gx.C07.hybrid_all_eq_grl", "Gx.C07.hybrid_foreign_names", "Gx.C07.hybrid_slotwise",
+    "C07": P("GotranxProofs.Properties.C07 GotranxProofs.GenValidRL GotranxProofs.SchemeEndToEnd",
+             ["Gx.SchemeEndToEnd.genHybrid_correct", "Gx.GenValidRL.genHybrid_valid", "Gx.GenValidRL.rl_generators_valid", "Gx.C07.hybrid_empty_eq_euler", "Gx.C07.hybrid_all_eq_grl", "Gx.C07.hybrid_foreign_names", "Gx.C07.hybrid_slotwise",
               "Gx.C07.bodySlots_congr", "Gx.C07.rlStore_nonstiff", "Gx.C07.rlStore_stiff", "Gx.C07.hybrid_aliases", "Gx.checkScheme_sound"] + COMMON,
              ["Gx.Pins.scheme_aliases"],
              ns.make_run(ns.c07_case, 30, 1200, ns.scheme_cfg), ns.c07_case),
-    "C08": P("GotranxProofs.Properties.C08 GotranxProofs.KahnComplete GotranxProofs.LoaderWF",
-             ["Gx.coreLoad_wf", "Gx.loadStringP_wf", "Gx.compOf_ok", "Gx.allAtoms_names_nodup", "Gx.Kahn.staticOrder_complete", "Gx.Kahn.staticOrder_correct", "Gx.C08.seqCheck_pairwise", "Gx.C08.seqCheck_sound", "Gx.C08.sameDefinition_eq", "Gx.C08.sameDefinition_trans",
+    "C08": P("GotranxProofs.Properties.C08 GotranxProofs.KahnComplete GotranxProofs.LoaderWF GotranxProofs.SeqCheckComplete",
+             ["Gx.C08.seqCheck_iff", "Gx.C08.seqCheck_complete", "Gx.coreLoad_wf", "Gx.loadStringP_wf", "Gx.compOf_ok", "Gx.allAtoms_names_nodup", "Gx.Kahn.staticOrder_complete", "Gx.Kahn.staticOrder_correct", "Gx.C08.seqCheck_pairwise", "Gx.C08.seqCheck_sound", "Gx.C08.sameDefinition_eq", "Gx.C08.sameDefinition_trans",
               "Gx.C08.sameDefinition_symm"],
              ["Gx.Pins.grammar_blocks"],
              ts.c08_run, ts.c08_case),
@@ -55,8 +55,8 @@ PROPS = {
               "Gx.C09.history_invariant", "Gx.C09.emitted_name_history_free", "Gx.sortNames_perm", "Gx.sortByName_perm", "Gx.sortByName_sorted"],
              ["Gx.Pins.scheme_aliases"],
              ts.c09_run, ts.c09_case),
-    "C10": P("GotranxProofs.Properties.C10 GotranxProofs.LoaderPerm",
-             ["Gx.model_perm_invariant", "Gx.mem_allAtoms_iff", "Gx.buildComps_present", "Gx.C10.sortByName_canonical", "Gx.C10.model_of_perm", "Gx.C10.code_of_equal_models", "Gx.C09.sort_iter_invariant",
+    "C10": P("GotranxProofs.Properties.C10 GotranxProofs.LoaderPerm GotranxProofs.LoaderAccept",
+             ["Gx.loadItemsP_perm", "Gx.coreLoad_accepts_perm", "Gx.coreLoad_perm", "Gx.C08.seqCheck_perm", "Gx.mem_comp_iff", "Gx.model_perm_invariant", "Gx.mem_allAtoms_iff", "Gx.buildComps_present", "Gx.C10.sortByName_canonical", "Gx.C10.model_of_perm", "Gx.C10.code_of_equal_models", "Gx.C09.sort_iter_invariant",
               "Gx.C09.layout_iter_invariant", "Gx.sortByName_perm", "Gx.sortByName_sorted"],
              ["Gx.Pins.grammar_blocks"],
              ts.c10_run, ts.c10_case),
